@@ -3,9 +3,10 @@
 import json
 ids = [json.loads(l)["id"] for l in open("/verif/properties.jsonl")]
 TB = ("Trusted: Lean 4.33 kernel (propext, Classical.choice, Quot.sound only); Spec/*.lean transcriptions; the Go translator "
-      "and correspondence harness; dependencies answered as oracles (Go crypto, crypto/x509 parsing and path validation, go-jose's signature check, the decoding of the metadata payload, the set of linked hash algorithms); "
+      "and correspondence harness; dependencies answered as oracles (Go crypto primitives, crypto/x509 parsing and path validation, the decoding of the metadata payload, the set of linked hash algorithms; crypto/x509's and "
+      "go-jose's signature checks as a whole only for certificate keys of a kind the certificate view does not describe); "
       "encoding/asn1 (key description, Apple nonce, AAGUID extension, SAN/RDN walk), encoding/json (client data), net/url (host extraction), go-tpm "
-      "TPMS_ATTEST / TPMT_PUBLIC codec, go-jose's compact JWS parsing / signing input / SafetyNet claims decoding, base64, uuid and fxamacker/cbor are Lean MODELS of the installed versions, tied to those packages by differential execution, not by translation of their source. "
+      "TPMS_ATTEST / TPMT_PUBLIC codec, go-jose's compact JWS parsing / signing input / algorithm-to-primitive table / SafetyNet claims decoding, crypto/x509's CheckSignature algorithm table, base64, uuid and fxamacker/cbor are Lean MODELS of the installed versions, tied to those packages by differential execution, not by translation of their source. "
       "The theorems are about the Lean model; the model is tied to /repo by regenerated tables (translator) and by "
       "differential execution (harness) on every run.")
 claimed = {
